@@ -72,9 +72,14 @@ class C06(Prop):
         same_pl = True
         if m.get('detached'):
             # detached payload given to check vs to create
-            cr_pl = re.search(r'detached_signature (?:\(sig .*?\) )?b([0-9a-f]*) ', o['op'])
+            # (parsed, not a regular expression: a signer's headers may themselves contain `) b.. ` sequences)
+            whole = parse(o['op'])
+            opl = [x for x in whole if isinstance(x, list) and x and x[0] == 'ops']
+            crs = [x for x in (opl[0][1:] if opl else []) if isinstance(x, list) and x and str(x[0]).endswith('detached_signature')]
             ck_pl = chk[2] if m['k'] == 'CoseSign1Builder' else chk[3]
-            same_pl = cr_pl is not None and ('b' + cr_pl.group(1)) == ck_pl
+            if m['k'] == 'CoseSign1Builder': cr_pl = crs[-1][1] if crs else None
+            else: cr_pl = crs[idx][2] if idx < len(crs) else None
+            same_pl = cr_pl is not None and cr_pl == ck_pl
         if m['same_aad'] and not m['late_prot'] and same_ctx and same_pl:
             if created_arg != seen: return 'verifier/decrypt closure saw bytes other than those the creator was given'
         elif not m['late_prot'] and created_arg == seen:
